@@ -1199,6 +1199,10 @@ def translate_one(repo, spec):
     digest = hashlib.sha256(ast.dump(fn).encode()).hexdigest()[:16]
     try:
         # the declared parameters must be the function's own
+        for d in fn.decorator_list:
+            if ast.unparse(d) not in ("classmethod", "staticmethod"):
+                # e.g. a cache put in front of the function changes what a call does without changing its body
+                raise Untranslatable(f"decorator @{ast.unparse(d)}")
         names = [a.arg for a in fn.args.posonlyargs + fn.args.args if a.arg not in ("self", "cls")]
         if not spec.get("region") and (names != spec.get("pynames", [p for p, _ in spec["params"]]) or fn.args.vararg or fn.args.kwarg
                                        or fn.args.kwonlyargs):
@@ -1241,6 +1245,30 @@ def translate_one(repo, spec):
         return head, None, f"{qual}: {e}", digest
 
 
+DEFAULTS_FILE = os.path.join(VERIF, "harness", "src_defaults.json")
+try:
+    PINNED_DEFAULTS = json.load(open(DEFAULTS_FILE))
+except Exception:                                               # noqa: BLE001
+    PINNED_DEFAULTS = {}
+
+
+def current_defaults(repo, spec):
+    """{parameter: source text of its default value} - the translation takes every argument explicitly, so a changed
+    default (a change of behaviour for every caller that omits the argument) is tracked separately, against
+    harness/src_defaults.json (pinned with `translate.py --pin-defaults` on the clean tree)."""
+    try:
+        fn = find_func(ast.parse(open(os.path.join(repo, spec["file"])).read()), spec.get("cls"), spec["func"])
+        if fn is None:
+            return None
+        a = fn.args
+        pos = a.posonlyargs + a.args
+        out = {p.arg: ast.unparse(d) for p, d in zip(pos[len(pos) - len(a.defaults):], a.defaults)}
+        out.update({p.arg: ast.unparse(d) for p, d in zip(a.kwonlyargs, a.kw_defaults) if d is not None})
+        return out
+    except Exception:                                           # noqa: BLE001
+        return None
+
+
 def translate_all(repo):
     out = ["/-",
            "  GENERATED by harness/translate.py from the working tree - do not edit.",
@@ -1266,8 +1294,11 @@ def translate_all(repo):
             out.append(head)
             out.append(body)
         out.append("")
+        defaults = current_defaults(repo, spec)
+        pinned = PINNED_DEFAULTS.get(spec["lean"])
         report.append({"function": qual, "file": spec["file"], "lean": "BM.Gen.Src." + spec["lean"],
-                       "translated": body is not None, "error": err, "ast_digest": digest})
+                       "translated": body is not None, "error": err, "ast_digest": digest,
+                       "defaults": defaults, "defaults_ok": (pinned is None or pinned == defaults)})
     out.append("end BM.Gen.Src")
     return "\n".join(out) + "\n", report
 
@@ -1285,6 +1316,10 @@ def write(gen_dir, text):
 if __name__ == "__main__":
     repo = os.environ.get("VERIF_REPO", "/repo")
     text, rep = translate_all(repo)
+    if "--pin-defaults" in sys.argv:
+        json.dump({r["lean"].split(".")[-1]: r["defaults"] for r in rep}, open(DEFAULTS_FILE, "w"), indent=1, sort_keys=True)
+        print("pinned", DEFAULTS_FILE)
+        sys.exit(0)
     if "--out" in sys.argv:
         # scratch use (robustness experiments): write elsewhere, under another namespace
         out = sys.argv[sys.argv.index("--out") + 1]
